@@ -227,6 +227,20 @@ CHECKS = {
         "internal macros and the get_proof_term routes are not covered. The veriT binary and SMT-LIB proofs are absent: only generated steps.",
         "TLA+ rule schemas + finite-model/arithmetic-grid consequence semantics, TLC; near-miss vector replay and trace validation of smt/veriT",
         "6/C18"),
+ "C05": ("model_checking",
+        "TLC model-checks spec/C05_Arith.tla: one state per (goal, trusted step) over every goal l REL r / ~(l REL r) with l of depth <= 2 "
+        "(+ casts of compound terms, + one level below a subtraction) at each of nat/int/real; the meaning of every statement is computed "
+        "with exact rational arithmetic (spec/C05_HolArith.tla, lib/Rat.tla: truncated subtraction only at nat, x/0 = 0, DIV/MOD by 0, powers); "
+        "invariants: the meaning is total and obeys the library's defining equations, each step's type-blind evaluator agrees with it on "
+        "terms of its own type, a step behind its type discipline only asserts true statements. Every goal is handed as a one-step proof to "
+        "EVERY level-0 arithmetic macro of the real checker (check_proof, default trust level), plus seeded deeper/mixed-type/near-equal/"
+        "float-path/polynomial inputs; TLC judges every accepted sequent (trace spec C05_ArithTrace; identities refuted by a grid point).",
+        "Trusted: TLC/SANY, the reading of library/{nat,int,real,transcendentals}.json in C05_HolArith.tla (int^nat as standard power), the "
+        "structural projection in harness/drivers/c05.py, CPython. Not examined (TLA+ has no reals): irrational constants/functions, "
+        "non-integer exponents, constants without a library meaning at their type, magnitudes >= 2^30; an identity that agrees on the grid "
+        "is only 'not refuted'. Residual: const_inequality still certifies comparisons of irrational constants by floats (not judged).",
+        "TLA+ semantics of HOL arithmetic with exact rationals + input-space machine, TLC; vector replay into check_proof, trace validation",
+        "6/C05"),
 }
 
 NOT_YET = {}
